@@ -18,6 +18,7 @@
 
 #include <stdio.h>
 #include <stdlib.h>
+#include <math.h>
 
 #include "numeric.h"
 #include "algebra.h"
@@ -99,43 +100,25 @@ void SolveLSE(matrix *mx, dvector *solution)
 
   */
 
-  /* Reorganize the matrix in order to find the pivot != 0 in the first k row k column */
+  /* Forward elimination with partial pivoting */
   for(k = 0; k < X->row; k++){
-    if(FLOAT_EQ(X->data[k][k], 0, 1e-4)){
-      for(i = 0; i < X->row; i++){
-        if(FLOAT_EQ(X->data[i][k], 0, 1e-4) == 0){
-          /* move the row i to the null value */
-          for(j = 0; j < X->col; j++){
-            tmp = X->data[i][j];
-            X->data[i][j] = X->data[k][j];
-            X->data[k][j] = tmp;
-          }
-          break;
-        }
-        else{
-          continue;
-        }
-      }
-    }
-  }
-
-  /* (*X).row is the number of X, so is equal to the number of unknowns variables */
-  for(k = 0; k < X->row; k++){
+    size_t piv = k;
     for(i = k+1; i < X->row; i++){
-      if(FLOAT_EQ(X->data[i][k], 0, 1e-4) == 0){ /* if the value is not 0 */
-        if(FLOAT_EQ(X->data[k][k], 0, 1e-4) == 1){
-          tmp = 0.f;
-        }
-        else{
-          tmp = X->data[i][k]/X->data[k][k];
-        }
-
-        for(j = 0; j < X->col; j++){
-          X->data[i][j] = (X->data[k][j] * (-tmp)) + X->data[i][j];
-        }
+      if(fabs(X->data[i][k]) > fabs(X->data[piv][k]))
+        piv = i;
+    }
+    if(piv != k){
+      double *tmp_row = X->data[k];
+      X->data[k] = X->data[piv];
+      X->data[piv] = tmp_row;
+    }
+    if(X->data[k][k] == 0.f)
+      continue;
+    for(i = k+1; i < X->row; i++){
+      tmp = X->data[i][k]/X->data[k][k];
+      for(j = 0; j < X->col; j++){
+        X->data[i][j] = (X->data[k][j] * (-tmp)) + X->data[i][j];
       }
-      else
-        continue;
     }
   }
 
@@ -156,7 +139,7 @@ void SolveLSE(matrix *mx, dvector *solution)
         continue;
     }
 
-    if(FLOAT_EQ(X->data[l][l], 0, 1e-4) == 1)
+    if(X->data[l][l] == 0.f)
       solution->data[l] = 0.f;
     else
       solution->data[l] = (X->data[l][X->col-1] -b) / X->data[l][l];
